@@ -55,11 +55,30 @@ type tOp struct {
 	label string
 }
 
+// bOp: a burst of k Interests with distinct names <base>/z0 .. <base>/z<k-1>, fresh nonces and the
+// short lifetime, from one face within one step (scale: k PIT entries fall due together).
+type bOp struct {
+	face  uint64
+	base  string
+	k     int
+	label string
+}
+
 type opDef struct {
 	i    *iOp
 	d    *dOp
 	t    *tOp
+	b    *bOp
 	down uint64 // != 0: the face is destroyed (removed from the forwarder's face tables)
+}
+
+// queued is a packet a backlogged face was handed and has not serialised yet ("defer" mode).
+type queued struct {
+	send fwsim.Send // as judged when the thread's pipeline call returned; holds the OutPkt
+	key  recKey     // Interest: the entry it was forwarded for
+	e    *entry     // ... and its incarnation in the reference at that time
+	// Data: PIT tokens the face supplied for the pending Interests the copy may answer
+	allowed map[string]bool
 }
 
 // slice is one focused alphabet; every slice is explored exhaustively to the depth bound.
@@ -75,6 +94,7 @@ type slice struct {
 	dfresh []bool
 	dextra []dOp
 	tops   []tOp
+	bursts []bOp
 	// faces that can be destroyed; packets they delivered before may still arrive afterwards
 	down []uint64
 	// routine: if non-empty, only these ops are routine; every other op of the slice is a
@@ -165,6 +185,17 @@ var slices = map[string]slice{
 		dextra: []dOp{{face: fwsim.N2, name: "/a/b", tok: "echo0"}},
 		tops:   []tOp{t100, t600},
 	},
+	// scale: k = 101 / 250 Interests with distinct names and the short lifetime arrive from one face
+	// within one step, so k PIT entries fall due in the same reaper period; one of the names is also
+	// asked for by a second face (long and short lifetime); Data for the first, a middle and the last
+	// name of the burst by name, by live token and by the token of an entry that is gone
+	"burst": {
+		iextra: []iOp{{face: fwsim.N3, name: "/a/z0"}, {face: fwsim.N3, name: "/a/z249", short: true}},
+		bursts: []bOp{{face: fwsim.L1, base: "/a", k: 101}, {face: fwsim.L1, base: "/a", k: 250}},
+		dextra: []dOp{{face: fwsim.N2, name: "/a/z0"}, {face: fwsim.N2, name: "/a/z100"}, {face: fwsim.N2, name: "/a/z249"},
+			{face: fwsim.N2, name: "/a/z0", tok: "echo0"}, {face: fwsim.N2, name: "/a/z249", tok: "echoGone"}},
+		tops: []tOp{t100, t600},
+	},
 	"time": {
 		inames: []string{"/a", "/a/b"}, ifaces: []uint64{fwsim.L1, fwsim.N3}, shapes: []string{"", "short", "cbp+short", "dup", "short+tok", "dup+tok", "zero"},
 		dnames: []string{"/a", "/a/b"}, dfaces: []uint64{fwsim.N2, fwsim.N3}, dtoks: []string{"none", "echo0"}, dfresh: []bool{false},
@@ -199,6 +230,9 @@ func (s slice) rename(from, to string) slice {
 		de[i].name = rn(de[i].name)
 	}
 	s.iextra, s.dextra = ie, de
+	if len(s.bursts) > 0 {
+		report.Fatal("rename: slices with bursts are not supported")
+	}
 	if len(s.routine) > 0 {
 		report.Fatal("rename: slices with routine op labels are not supported")
 	}
@@ -310,6 +344,11 @@ func (s slice) ops() (names []string, defs map[string]opDef) {
 	for _, o := range s.dextra {
 		addD(o)
 	}
+	for _, o := range s.bursts {
+		o.label = fmt.Sprintf("B(%s,%s/z0..z%d,short)", faceLabel[o.face], o.base, o.k-1)
+		oo := o
+		add(o.label, opDef{b: &oo})
+	}
 	for _, f := range s.down {
 		add(fmt.Sprintf("Down(%s)", faceLabel[f]), opDef{down: f})
 	}
@@ -324,6 +363,8 @@ type sys struct {
 	names   []string
 	defs    map[string]opDef
 	allOps  []explore.Op
+	// deferred: every face is backlogged ("defer" in the configuration name), see inst.flush
+	deferred bool
 }
 
 type inst struct {
@@ -335,6 +376,7 @@ type inst struct {
 	live  []liveTok
 	gone  []uint32 // issued tokens whose PIT entry no longer exists (oldest first)
 	dump  table.VerifPitCsDump
+	queue []queued // "defer" mode: what the backlogged faces hold
 }
 
 // liveTok is an upstream-issued token whose PIT entry still exists in the real token map.
@@ -357,10 +399,18 @@ func build(cfgName string) explore.System {
 	// optional flags after the four fields: "link" = arrivals through a real NDNLPLinkService;
 	// "t1" = the driven thread is thread 1 of 2 (the names /a... are replaced by ones that the
 	// link service dispatches to that thread; tokens carry thread id 1)
+	// "late" = the faces read what they were handed (PIT token, bytes) only after the thread's
+	// pipeline call has returned; "defer" = late, and every face is backlogged: it serialises its
+	// queue only at the next clock step
 	link, t1, nameA := false, false, "/a"
+	late := false
 	capacity := -1
 	for _, x := range strings.Fields(cfgName)[4:] {
 		switch {
+		case x == "late":
+			late = true
+		case x == "defer":
+			late, s.deferred = true, true
 		case x == "link":
 			link = true
 		case x == "t1":
@@ -390,6 +440,7 @@ func build(cfgName string) explore.System {
 	}
 	s.cfg = fwsim.Config{
 		RealLinkService: link,
+		LateRead:        late,
 		Routes: []fwsim.Route{
 			{Prefix: nameA, Face: fwsim.N2, Cost: 1}, {Prefix: nameA, Face: fwsim.N3, Cost: 2},
 			{Prefix: "/localhost", Face: fwsim.L5, Cost: 1},
@@ -428,6 +479,7 @@ func build(cfgName string) explore.System {
 
 func (s *sys) New() any {
 	in := &inst{sim: fwsim.New(s.cfg), ref: newRef(s.cfg.CsAdmit && s.cfg.CsServe)}
+	in.ref.deferIssue = s.deferred
 	in.refresh()
 	return in
 }
@@ -509,8 +561,22 @@ func (s *sys) step(in *inst, op explore.Op, check bool) (v []report.Violation) {
 		report.Fatal("unknown op %q", op.Name)
 	}
 	in.lastD = nil
+	in.ref.allowed = map[uint64]map[string]bool{}
 	now := in.sim.Now()
+	var stepSends []fwsim.Send
 	switch {
+	case d.b != nil:
+		// k Interest arrivals in one step; each is judged like a single arrival
+		o := d.b
+		for i := 0; i < o.k; i++ {
+			in.ref.nonceCtr++
+			nonce := 0x1000 + in.ref.nonceCtr
+			io := &iOp{face: o.face, name: fmt.Sprintf("%s/z%d", o.base, i), short: true}
+			sends := in.sim.Interest(o.face, fwsim.InterestSpec{Name: io.name, Nonce: fwsim.U32(nonce), Lifetime: fwsim.Dur(lifeShort)}, fwsim.LP{})
+			stepSends = append(stepSends, sends...)
+			v = append(v, in.ref.onInterest(in, io, nonce, lifeShort, nil, sends, now)...)
+		}
+		in.refresh()
 	case d.i != nil:
 		o := d.i
 		var nonce uint32
@@ -535,6 +601,7 @@ func (s *sys) step(in *inst, op explore.Op, check bool) (v []report.Violation) {
 			lp.PitToken = tokenOf(o.face, false)
 		}
 		sends := in.sim.Interest(o.face, is, lp)
+		stepSends = sends
 		in.refresh()
 		v = in.ref.onInterest(in, o, nonce, life, lp.PitToken, sends, now)
 	case d.d != nil:
@@ -559,6 +626,7 @@ func (s *sys) step(in *inst, op explore.Op, check bool) (v []report.Violation) {
 		}
 		wire := fwsim.MakeData(ds)
 		sends := in.sim.Inject(o.face, wire, lp)
+		stepSends = sends
 		in.refresh()
 		v = in.ref.onData(in, o.face, o.name, lp.PitToken, wire, sends, now, false)
 		in.lastD, in.lastW, in.lastT = o, wire, lp.PitToken
@@ -566,6 +634,8 @@ func (s *sys) step(in *inst, op explore.Op, check bool) (v []report.Violation) {
 		in.sim.RemoveFace(d.down)
 		in.refresh()
 	case d.t != nil:
+		// time passes: the backlogged faces get round to serialising what they hold
+		v = append(v, in.flush()...)
 		in.sim.Advance(d.t.dt)
 		var sends []fwsim.Send
 		if d.t.tick {
@@ -579,12 +649,56 @@ func (s *sys) step(in *inst, op explore.Op, check bool) (v []report.Violation) {
 			}
 		}
 	}
+	if s.deferred {
+		// Data copies handed to a (backlogged) face in this step: serialised later, judged again then
+		for _, sd := range stepSends {
+			if sd.Kind == fwsim.KData {
+				in.queue = append(in.queue, queued{send: sd, allowed: in.ref.allowed[sd.Face]})
+			}
+		}
+	}
 	v = append(v, in.ref.sync(in)...)
 	if !check {
 		return nil
 	}
 	return v
 }
+
+// flush ("defer" mode): every backlogged face serialises its queue NOW, reading the PIT token and
+// the bytes through the OutPkt it was handed (fwsim.Send.Reread), as the real link service's send
+// goroutine does some time after Face.SendPacket returned.
+//   - An Interest: the token it carries now is the token this forwarder attached when it
+//     forwarded that Interest; from here on the upstream may echo it.
+//   - A Data copy: it must (still) carry a PIT token the face supplied for a pending Interest
+//     the Data answered (C01.each) and the bytes that were received (C01.bytes).
+func (in *inst) flush() (v []report.Violation) {
+	r := in.ref
+	for _, q := range in.queue {
+		late := q.send.Reread()
+		if q.send.Kind == fwsim.KInterest {
+			if th, t, ok := fwsim.IssuedToken(late.PitToken); ok && int(th) == in.sim.ThreadID() {
+				e := q.e
+				if e == nil || r.pend[q.key] != e {
+					e = nil // that incarnation of the entry is gone (satisfied or expired meanwhile)
+				}
+				r.attach(t, q.key, e)
+			}
+			continue
+		}
+		if !bytesEq(late.PitToken, q.send.PitToken) && q.allowed != nil && !q.allowed[string(late.PitToken)] {
+			v = append(v, report.Violation{Clause: "C01.each", Key: "Data copy queued on a face carries, when the face serialises it, a PIT token the face did not supply",
+				Detail: fmt.Sprintf("Data %s handed to face %d with PIT token %s; read again when the backlogged face serialised its queue the token is %s, which face %d never supplied for a pending Interest this Data answered", q.send.NameStr, q.send.Face, tokStr(q.send.PitToken), tokStr(late.PitToken), q.send.Face)})
+		}
+		if !bytesEq(late.Wire, q.send.Wire) {
+			v = append(v, report.Violation{Clause: "C01.bytes", Key: "Data copy queued on a face changed before the face serialised it",
+				Detail: fmt.Sprintf("Data %s handed to face %d: the %d bytes read when the backlogged face serialised its queue differ from the %d bytes that were received and handed over", q.send.NameStr, q.send.Face, len(late.Wire), len(q.send.Wire))})
+		}
+	}
+	in.queue = in.queue[:0]
+	return v
+}
+
+func bytesEq(a, b []byte) bool { return string(a) == string(b) }
 
 // CheckState: C01.consume closure — the Data that just arrived is delivered to nobody when it
 // arrives again immediately (run after the canonical state was taken; destroys the instance).
@@ -667,6 +781,14 @@ func (s *sys) Canon(i any) string {
 		fmt.Fprintf(&b, "T%d=%s;", k, lt.key)
 	}
 	fmt.Fprintf(&b, "gone=%v;", len(in.gone) > 0)
+	// what the backlogged faces still hold: Interests whose token the upstream cannot know yet
+	for _, q := range in.queue {
+		if q.send.Kind == fwsim.KInterest {
+			fmt.Fprintf(&b, "Q[%s>%d cur=%v]", q.key, q.send.Face, q.e != nil && r.pend[q.key] == q.e)
+		} else {
+			fmt.Fprintf(&b, "QD[%s>%d]", q.send.NameStr, q.send.Face)
+		}
+	}
 	// nonce relations and dead-nonce status per name
 	nn := make([]string, 0, len(r.lastNonce))
 	for n := range r.lastNonce {
@@ -725,8 +847,7 @@ func devDepth(d int) int {
 	return d
 }
 
-func configs(th bool) []explore.Config {
-	var c []explore.Config
+func configs(th bool) (c []explore.Config) {
 	add := func(sl, st, cs, fib string, depth int) {
 		c = append(c, explore.Config{Name: fmt.Sprintf("%s %s %s %s", sl, st, cs, fib), MaxDepth: devDepth(depth), MaxDev: -1})
 	}
@@ -737,7 +858,25 @@ func configs(th bool) []explore.Config {
 		chain("br", "cs1", "tree", 6, 1)
 		return c
 	}
+	if only := os.Getenv("VERIF_ONLY"); only != "" {
+		// development aid: VERIF_ONLY=<prefix> keeps the configurations whose name starts with it
+		defer func() {
+			var k []explore.Config
+			for _, x := range c {
+				if strings.HasPrefix(x.Name, only) {
+					k = append(k, x)
+				}
+			}
+			c = k
+		}()
+	}
 	if !th {
+		// scale (bursts of 101 / 250 distinct names falling due in one reaper period) and backlogged
+		// faces (what a face was handed is read when it serialises its queue, at the next clock step):
+		// small alphabets first, what they leave of their share of the budget goes to the others
+		add("burst", "br", "cs0", "tree", 3)
+		add("core", "br", "cs1", "tree defer", 5)
+		add("tokens", "mc", "cs0", "ht defer", 4)
 		// quick: every slice to depth 4; the eight {strategy} x {cache} x {FIB} combinations are
 		// spread over the slices so that each combination is exercised by at least one slice;
 		// the small core alphabet to depth 6; request/response chains with <=1 deviation to depth 7
@@ -746,11 +885,11 @@ func configs(th bool) []explore.Config {
 		add("cache", "mc", "csa", "ht cap=0", 4)
 		add("names", "br", "cs1", "tree", 4)
 		add("names", "mc", "cs0", "ht", 4)
-		add("tokens", "br", "cs0", "ht", 4)
+		add("tokens", "br", "cs0", "ht late", 4) // late: the faces read token and bytes after the pipeline call returned
 		add("tokens", "mc", "cs1", "tree", 4)
 		add("flags", "br", "cs1", "ht", 4)
-		add("flags", "mc", "cs0", "tree", 4)
-		add("time", "mc", "cs1", "ht", 4)
+		add("flags", "mc", "cs0", "tree late", 4)
+		add("time", "mc", "cs1", "ht late", 4)
 		add("time", "br", "cs0", "tree", 4)
 		add("tokens", "mc", "cs1", "tree link", 4) // arrivals through the real NDNLPLinkService
 		add("tokens", "br", "cs1", "ht t1", 4)     // the driven thread is thread 1 of 2
@@ -784,6 +923,16 @@ func configs(th bool) []explore.Config {
 			}
 		}
 	}
+	// scale (bursts) and backlogged / late-reading faces, both strategies
+	for _, st := range []string{"br", "mc"} {
+		add("burst", st, "cs0", "tree", 4)
+		add("core", st, "cs1", "tree defer", 6)
+		add("tokens", st, "cs0", "ht defer", 5)
+		add("flags", st, "cs1", "tree defer", 4)
+		add("tokens", st, "cs1", "tree late", 5)
+		add("time", st, "cs0", "ht late", 5)
+	}
+	add("burst", "mc", "cs1", "ht", 3)
 	// content-store capacity 0 / 1 / 2 x cache mode x strategy
 	for _, st := range []string{"br", "mc"} {
 		add("cache", st, "cs1", "tree cap=1", 5)
@@ -907,14 +1056,15 @@ func main() {
 			cov["oracle_branches_exercised"] = o
 			cov["dispatch_agreement_pass"] = dispatchPass(rep)
 		},
-		Rule: "BFS over histories of Interest arrivals I(face,name,CanBePrefix,MustBeFresh,nonce fresh|repeated,lifetime 4s|500ms|0,PIT token), Data arrivals D(face,name,freshness,token none|echo of a live upstream token|foreign 6-byte|4-byte) and clock steps T(dt)+reaper tick / A(dt) without tick, on one real fw.Thread with real PIT-CS, dead nonce list, FIB (tree, hash table) and strategies (best-route, multicast), cache on/off/admit-only, content-store capacity 1024 (never evicts) and 0|1|2 on the cache alphabet; focused alphabets (names, tokens, flags, time, cache); after every transition every SendPacket is compared with a three-valued reference of pending Interests and the reference is cross-checked against the white-box PIT dump; states de-duplicated on reference + white-box dump (clock-relative, tokens renamed by entry, nonces by equality with the last nonce per name)",
+		Rule: "BFS over histories of Interest arrivals I(face,name,CanBePrefix,MustBeFresh,nonce fresh|repeated,lifetime 4s|500ms|0,PIT token), Data arrivals D(face,name,freshness,token none|echo of a live upstream token|foreign 6-byte|4-byte) and clock steps T(dt)+reaper tick / A(dt) without tick, on one real fw.Thread with real PIT-CS, dead nonce list, FIB (tree, hash table) and strategies (best-route, multicast), cache on/off/admit-only, content-store capacity 1024 (never evicts) and 0|1|2 on the cache alphabet; focused alphabets (names, tokens, flags, time, cache, burst = B(face,k): k in {101,250} Interests with distinct names and the 500 ms lifetime arriving in one step); recording faces that read what they were handed (PIT token, bytes) at the SendPacket call, or only after the pipeline call returned ('late'), or - backlogged faces, 'defer' - only at the next clock step, the token read THEN being the one the upstream can echo and the Data copy read THEN being judged again; after every transition every SendPacket is compared with a three-valued reference of pending Interests and the reference is cross-checked against the white-box PIT dump; states de-duplicated on reference + white-box dump (clock-relative, tokens renamed by entry, nonces by equality with the last nonce per name)",
 		Assumptions: []string{
 			"faces are simulated at the dispatch.Face seam: a received frame is turned into defn.Pkt exactly as NDNLPLinkService.handleIncomingFrame + dispatchInterest/dispatchData do (copied field by field in verif/harness/fwsim), one forwarding thread (id 0)",
 			"the clock is virtual (verif/shim/vtime) and PIT tokens come from verif/shim/vrand; the reaper runs only in T(dt) steps, once, after the clock moved",
 			"equal canonical state (reference records + live tokens + per-name nonce/dead-nonce status + private PIT-CS dump with queue priorities, all times relative to now) implies equal futures; out-record ages are saturated at the 500 ms suppression window, expired times at 0",
 			"where the property leaves a choice the observed behaviour is adopted into the reference: whether an Interest repeating an already seen (name, nonce) is recorded; whether a record past its own lifetime still exists; whether Data echoing a token that was not attached to the currently pending Interest of that entry matches",
 			"a record whose own lifetime elapsed may or may not receive a copy until the latest lifetime among all Interests that ever arrived for its PIT entry has elapsed and the reaper has run twice since (the 'shortly after' of C08); from then on a copy, or a surviving in-record, is a C01.only violation",
-			"name universe {/a,/a/b,/a/b/c,/localhost/x}; lifetimes {4 s default, 500 ms, explicit 0}; clock steps {100 ms, 600 ms, 5 s}; faces L1,L5 local, N2,N3,N4 non-local, A6 ad-hoc",
+			"name universe {/a,/a/b,/a/b/c,/localhost/x} (+ /a/z0../a/z249 in the burst alphabet); lifetimes {4 s default, 500 ms, explicit 0}; clock steps {100 ms, 600 ms, 5 s}; faces L1,L5 local, N2,N3,N4 non-local, A6 ad-hoc",
+			"a face keeps the dispatch.OutPkt it was handed the way the real link service keeps it in its send queue (the struct value; nothing it points to is copied) and may serialise it any time after SendPacket returned: at once, when the pipeline call has returned ('late'), or at the next clock step ('defer', all faces backlogged; until then the upstream cannot echo the token). 'The PIT token this forwarder attached when it forwarded that Interest' is the token the face reads when it serialises; a token that left attached to the Interests of several PIT entries makes an echoing Data satisfy each of them",
 		},
 	})
 }
